@@ -4,6 +4,7 @@ import (
 	"fmt"
 	"path/filepath"
 	"runtime"
+	"strings"
 	"testing"
 
 	"github.com/semafind/semadb/models"
@@ -24,6 +25,36 @@ func TestMain(m *testing.M) {
 type Case struct {
 	H       gen.History          `json:"history"`
 	Queries [][]oracle.TextQuery `json:"queries"`
+	// Huge, if set, turns the text of one written point into a very long document in which one word
+	// occurs Count times (kept out of the history so that cases stay small): term frequencies beyond
+	// 16 bits, documents of several hundred kilobytes
+	Huge *HugeDoc `json:"huge,omitempty"`
+}
+
+type HugeDoc struct {
+	Step  int    `json:"step"`
+	Point int    `json:"point"`
+	Word  string `json:"word"`
+	Count int    `json:"count"`
+	Tail  string `json:"tail"`
+}
+
+// expand returns the history with the huge document written out.
+func (c Case) expand() gen.History {
+	h := c.H
+	if c.Huge == nil || c.Huge.Step >= len(h.Steps) || c.Huge.Point >= len(h.Steps[c.Huge.Step].Points) {
+		return h
+	}
+	steps := append([]gen.Step{}, h.Steps...)
+	st := steps[c.Huge.Step]
+	pts := append([]model.Point{}, st.Points...)
+	doc := model.CloneDoc(pts[c.Huge.Point].Doc)
+	doc[gen.PText] = strings.Repeat(c.Huge.Word+" ", c.Huge.Count) + c.Huge.Tail
+	pts[c.Huge.Point] = model.Point{Id: pts[c.Huge.Point].Id, Doc: doc}
+	st.Points = pts
+	steps[c.Huge.Step] = st
+	h.Steps = steps
+	return h
 }
 
 func genTextQuery(t *rapid.T, label string, g *gen.HistoryGen) oracle.TextQuery {
@@ -127,12 +158,37 @@ func genCase(t *rapid.T) Case {
 		}
 		pending = nil
 	}
+	if rapid.IntRange(0, 19).Draw(t, "huge") == 0 {
+		// candidates: written points whose document sets the text field
+		type cand struct{ step, point int }
+		var cands []cand
+		for si, st := range c.H.Steps {
+			if (st.Kind == "insert" || st.Kind == "update") && !strings.HasPrefix(st.Note, "rejected") {
+				for pi, p := range st.Points {
+					if _, ok := p.Doc[gen.PText].(string); ok {
+						cands = append(cands, cand{si, pi})
+					}
+				}
+			}
+		}
+		if len(cands) > 0 {
+			k := rapid.IntRange(0, len(cands)-1).Draw(t, "hugeAt")
+			c.Huge = &HugeDoc{Step: cands[k].step, Point: cands[k].point, Word: rapid.SampledFrom([]string{"ring", "frodo", "wizard"}).Draw(t, "hugeWord"),
+				Count: rapid.SampledFrom([]int{255, 256, 32768, 65535, 65536, 65537, 70000}).Draw(t, "hugeCount"), Tail: rapid.SampledFrom([]string{"", "shire", "ring ring"}).Draw(t, "hugeTail")}
+			for si := c.Huge.Step; si < len(c.Queries); si++ {
+				c.Queries[si] = append(c.Queries[si], oracle.TextQuery{Value: c.Huge.Word, Operator: models.OperatorContainsAny, Limit: 3}, oracle.TextQuery{Value: c.Huge.Word + " shire", Operator: models.OperatorContainsAll, Limit: 75})
+			}
+		}
+	}
 	return c
 }
 
 func execCase(c Case) (res vt.Result) {
 	rec := vt.R()
-	h := c.H
+	h := c.expand()
+	if c.Huge != nil {
+		rec.Count("cases_with_a_huge_document", 1)
+	}
 	dir, cleanup := drive.CaseDir()
 	defer cleanup()
 	path := filepath.Join(dir, "sharddb.bbolt")
